@@ -15,7 +15,7 @@ CONSTANT FragNum      \* fragment_num of the driver's configuration: a written p
 
 Trace == ndJsonDeserialize(IOEnv.TRACE)
 VARIABLES l, l0, sc, failed
-mvars == <<mode, grp, ngrp, pub, sub, ep, fed, timers, fs, act>>
+mvars == <<mode, grp, ngrp, pub, sub, ep, fed, timers, fs, nbr, act>>
 tvars == <<mvars, l, l0, sc, failed>>
 
 TraceInit == Init /\ mode = 0 /\ l = 1 /\ l0 = 1 /\ sc = -1 /\ failed = FALSE /\ TLCSet(1, 1)
@@ -24,7 +24,7 @@ TraceReset ==
   /\ l <= Len(Trace) /\ Trace[l].ev = "reset" /\ l' = l + 1 /\ l0' = l /\ sc' = Trace[l].sc
   /\ mode' = Trace[l].mode
   /\ grp' = 0 /\ ngrp' = 0 /\ pub' = FALSE /\ sub' = FALSE /\ ep' = 0 /\ fed' = 0
-  /\ timers' = <<>> /\ fs' = NoDir /\ act' = [name |-> "init"]
+  /\ timers' = <<>> /\ fs' = NoDir /\ nbr' = TRUE /\ act' = [name |-> "init"]
   /\ failed' = FALSE
 
 Names == {"PubStart", "Feed", "PubStop", "SubJoin", "SubLeave", "Tick", "TimerFire"}
@@ -61,6 +61,7 @@ Diff(o, g, p, e, w, f) ==
   \cup (IF o.segsOk THEN {} ELSE {"listedSegmentMissing"})
   \cup (IF LiveSparedOf(o.mux, w, e, ObsFs(o)) THEN {} ELSE {"LiveSpared"})
   \cup (IF ListedOf(ObsFs(o)) /\ o.segsOk THEN {} ELSE {"Listed"})
+  \cup (IF o.nb = nbr THEN {} ELSE {"neighbour"})     \* the other live stream of the same server: untouched
 
 Refuse(why) == /\ failed' = TRUE
                /\ PrintT("@REJ@" \o ToString(l))
@@ -72,7 +73,7 @@ TraceStep ==
      IF failed THEN UNCHANGED mvars /\ failed' = TRUE
      ELSE IF e.panic # "" THEN UNCHANGED mvars /\ Refuse({"panic"})
      ELSE IF ~OkOf(e.ev) THEN UNCHANGED mvars /\ Refuse({"notEnabled"})
-     ELSE /\ FxOf(e.ev) /\ mode' = mode /\ act' = [name |-> e.ev]
+     ELSE /\ FxOf(e.ev) /\ mode' = mode /\ nbr' = nbr /\ act' = [name |-> e.ev]
           /\ LET early == IF "pre" \in DOMAIN e THEN {"early:" \o x : x \in Diff(e.pre, grp, pub, ep, fed > 0, fs)} ELSE {}
                  why == early \cup Diff(e.obs, grp', pub', ep', fed' > 0, fs')
              IN IF why = {} THEN failed' = FALSE ELSE Refuse(why)
@@ -93,7 +94,7 @@ TraceRace ==
      IF failed THEN UNCHANGED mvars /\ failed' = TRUE
      ELSE IF e.panic # "" THEN UNCHANGED mvars /\ Refuse({"panic"})
      ELSE IF ~RaceOk THEN UNCHANGED mvars /\ Refuse({"notEnabled"})
-     ELSE /\ RaceFx /\ mode' = mode /\ act' = [name |-> e.ev]
+     ELSE /\ RaceFx /\ mode' = mode /\ nbr' = nbr /\ act' = [name |-> e.ev]
           /\ LET early == {"early:" \o x : x \in Diff(e.pre, grp, pub, ep, fed > 0, fs)}
                  why == early \cup Diff(e.obs, grp', pub', ep', fed' > 0, fs')
              IN IF why = {} THEN failed' = FALSE ELSE Refuse(why)
